@@ -109,9 +109,29 @@ def run(p, led, tier):
     led.floors["C16-R1"] = (3, "three sibling encodings of the flow predicate")
 
     # ---------------- R3a coercion tables
-    co = p.func("_coerce_output", R)
-    ci = p.func("_coerce_input", R)
+    # the boundary coercions: two functions (value, port) → TypedValue, or one function with a third parameter whose type is a
+    # two-member enumeration naming the boundary (input / output)
+    extra_arg = {}
+    try:
+        co = p.func("_coerce_output", R)
+        ci = p.func("_coerce_input", R)
+    except AnchorError:
+        co = ci = None
+        for f_ in [f for f in p.all_funcs if f.module.rel == R and f.cls is None and len(f.params()) == 3]:
+            a3 = f_.node.args.args[2]
+            ec = next((c_ for c_ in p.classes.get(src(a3.annotation), []) if c_.is_enum()), None) if a3.annotation is not None else None
+            if ec is not None and 2 <= len(ec.enum_members()) <= 4 and f_.node.returns is not None and "TypedValue" in src(f_.node.returns):
+                mem = {n_.lower(): n_ for n_, _ in ec.enum_members()}
+                o_ = next((v for k, v in mem.items() if "out" in k), None)
+                i_ = next((v for k, v in mem.items() if k.startswith("in")), None)
+                if o_ and i_:
+                    co = ci = f_
+                    extra_arg = {"output": (ec, o_), "input": (ec, i_)}
+        if co is None:
+            raise
     for fi, rule_name, pred in ((ci, "input", lambda d1, i1, d2, i2: d1 == d2 and ilv[i1] >= ilv[i2]), (co, "output", lambda d1, i1, d2, i2: d1 == d2 and i1 == i2)):
+        def third(it, _rn=rule_name):
+            return [it.enum_member(*extra_arg[_rn])] if extra_arg else []
         badc = []
         n = 0
         for d1 in dts:
@@ -124,7 +144,7 @@ def run(p, led, tier):
                             it = Interp(p, o)
                             val = it.instantiate(tv, [it.enum_member(DT, d1), it.enum_member(IL, i1), Unknown("payload")], {})
                             try:
-                                r = it.call_fi(fi, [val, port(it, d2, i2)], {})
+                                r = it.call_fi(fi, [val, port(it, d2, i2)] + third(it), {})
                                 return ("ok", getattr(r.fields["data_type"], "name", "?"), getattr(r.fields["integrity"], "name", "?"))
                             except PyRaise as e:
                                 return ("raise",)
@@ -139,13 +159,13 @@ def run(p, led, tier):
             for i2 in ils:
                 def go_raw(o):
                     it = Interp(p, o)
-                    r = it.call_fi(fi, ["raw payload", port(it, d2, i2)], {})
+                    r = it.call_fi(fi, ["raw payload", port(it, d2, i2)] + third(it), {})
                     return (getattr(r.fields["data_type"], "name", "?"), getattr(r.fields["integrity"], "name", "?"), r.fields.get("value"))
                 outs = {r for _, r in explore(go_raw, max_paths=20)}
                 n += 1
                 if outs != {(d2, i2, "raw payload")}:
                     badc.append(f"raw value into port ({d2},{i2}) labelled {sorted(outs, key=str)}")
-        key = f"{fi.qual} ▸ label table"
+        key = f"{fi.qual} ▸ label table" + (f" ({rule_name} boundary)" if extra_arg else "")
         if badc:
             led.fail("C16-R3", key, where(fi, fi.node), f"{len(badc)} of {n} cells wrong, e.g. {badc[0]}", path=badc[:10])
         else:
